@@ -1304,8 +1304,16 @@ def gen_ks_history(seed):
     ops = []
     cur = 0
     for _ in range(rng.randint(3, 7)):
-        c = rng.weighted([("veff", 5), ("scf", 2), ("reset", 4), ("level", 1), ("displace", 2), ("grad", 2)])
-        if c == "displace":
+        c = rng.weighted([("veff", 5), ("scf", 2), ("reset", 4), ("level", 1), ("displace", 2), ("grad", 2), ("analyze", 2)])
+        if c == "analyze":
+            # post-processing between uses of one Kohn-Sham object: an SCF run, then the package's
+            # ElectronAnalyzer.from_calc on it - with another grid level it re-evaluates the energy on
+            # the calculator's own grids object rebuilt in place and restores the level afterwards
+            # ("should leave calc almost the same as it started"); the object is then used again
+            ops.append({"op": "analyze", "cycles": 1, "dm": rng.below(3), "alevel": rng.choice([None, 0, 1, 1])})
+            if rng.chance(0.7):
+                ops.append({"op": "veff", "dm": rng.below(3)})
+        elif c == "displace":
             # geometry step of a scan: the SAME Mole object is moved in place, then reset(mol)
             ops.append({"op": "displace", "delta": [[rng.uniform(-0.25, 0.25) for _ in range(3)] for _ in range(4)]})
         elif c == "reset":
@@ -1357,6 +1365,13 @@ def exec_ks_history(hist, rp):
             return {"veff": np.array(v, copy=True), "exc": float(v.exc), "ecoul": float(v.ecoul)}, adigest(dm) == b
         dm0 = np.array(U.dm(k, 2 if uks else 1, op.get("dm", 0)), copy=True)
         e, dm = scf_run(ks, op["cycles"], dm0)
+        if op["op"] == "analyze":
+            from ciderpress.pyscf.analyzers import ElectronAnalyzer
+
+            an = ElectronAnalyzer.from_calc(ks, grids_level=op.get("alevel"))
+            mol.verbose = 0  # (the analyzer sets the verbosity of the molecule it is given)
+            stats["analyzer_other_level" if op.get("alevel") not in (None, level) else "analyzer_same_level"] += 1
+            return {"e_tot": e, "dm": dm, "exc_orig": float(an.get("exc_orig")), "e_tot_orig": float(an.get("e_tot_orig"))}, True
         if op["op"] == "grad":
             g = ks.nuc_grad_method()
             g.verbose = 0
@@ -1406,7 +1421,7 @@ def exec_ks_history(hist, rp):
             tb = traceback.extract_tb(ex.__traceback__)
             # a request that fresh objects reject in the same way is not a history effect
             ref_exc = None
-            if c in ("veff", "scf", "grad"):
+            if c in ("veff", "scf", "grad", "analyze"):
                 try:
                     set_perturb(hist["perturb"] ^ 0x5A)
                     mol_f = U.mol(cur, fresh=True)
@@ -1440,7 +1455,7 @@ def exec_ks_history(hist, rp):
         set_perturb(hist["perturb"])
         stats["reference_calls"] += 1
         for name in sorted(ref):
-            ok, why = close(got[name], ref[name], 1e-9 if c in ("scf", "grad") else RTOL)
+            ok, why = close(got[name], ref[name], 1e-9 if c in ("scf", "grad", "analyze") else RTOL)
             stats["comparisons"] += 1
             if not ok:
                 V("history_vs_fresh:ks.%s:%s:%s" % (c, name, site), "step %d (%s, mol %s after %s): %s" % (step, mdesc["settings"], hist["mols"][cur]["name"], [o["op"] for o in hist["ops"][:step]][-4:], why))
